@@ -71,4 +71,13 @@ def emittedLnames (s : NSt) : List ((Nat × Nat) × String) :=
 def emittedGnames (s : NSt) : List (Nat × String) :=
   sortByKey (fun (p : Nat × String) => p.1) (s.gnames.filterMap (fun (p : Nat × String) => (mapping s.e.g.items p.1).map (fun n => (n, p.2))))
 
+/-- `FunctionBuilder::replace_import_in_module(ImportsID)`: the index-space part is M2's `replaceImport`; the new local function is
+    named after the *field name* of the import it replaces (`local_func.body.name = Some(imp.name)`), whatever custom name the import
+    had; nothing happens to the names when the import is not a live function import (M2: panic / silent no-op) -/
+def replaceImportNamed (s : NSt) (impId uid : Nat) (field : String) : NSt × Ret :=
+  let r := replaceImport s.e impId uid []
+  let found := (match s.e.imports[impId]? with | some e => e.sp == some Sp.F | none => false)
+    && (s.e.f.items.findIdx? (fun (it : Item) => !it.del && it.imp && it.impId == impId)).isSome
+  ({ s with e := r.1, fname := if found then setName s.fname uid field else s.fname }, r.2)
+
 end Orca.Names
